@@ -82,6 +82,9 @@ def check(ctx: Ctx) -> str:
     repo = ctx.repo
     skeleton_equivalence(ctx, "R1")
     filter_twin_rules(ctx, "R2", "R2s", "R2r")
+    from .c07 import loop_twins
+
+    loop_twins(ctx, "R6")
 
     ctx.rule("R3", "entry points: sync and async forms build the context the same way, consume the same root generator and route exceptions through handle_exception")
     tpl = repo.cls("environment:Template")
